@@ -19,17 +19,18 @@ func copyFile(f *File, newName string) (*File, error) {
 // copyDir copy directory and return new directories and files tree
 func copyDir(d *Dir, newName string) (*Dir, error) {
 	var err error
-	d.mu.RLock()
-	defer d.mu.RUnlock()
-	var nodescopy = make([]os.FileInfo, len(d.nodes))
-	for i := 0; i < len(d.nodes); i++ {
-		if d.nodes[i].IsDir() {
-			var dir = d.nodes[i].(*Dir)
+	// list under the directory lock, copy the children without it: waiting for a child
+	// file's data lock while holding the directory lock can deadlock with a handle holder
+	var nodes = d.getNodes()
+	var nodescopy = make([]os.FileInfo, len(nodes))
+	for i := 0; i < len(nodes); i++ {
+		if nodes[i].IsDir() {
+			var dir = nodes[i].(*Dir)
 			if nodescopy[i], err = copyDir(dir, dir.Name()); err != nil {
 				return nil, err
 			}
 		} else {
-			var file = d.nodes[i].(*File)
+			var file = nodes[i].(*File)
 			if nodescopy[i], err = copyFile(file, file.Name()); err != nil {
 				return nil, err
 			}
